@@ -6,7 +6,7 @@ import ast
 from ..core import AnalysisError, where, norm
 from ..consteval import Evaluator, NotConst
 from ..shapes import u
-from ..srcmodel import walk_no_nested
+from ..srcmodel import walk_no_nested, parent
 
 PYOP = {'+': ast.Add, '*': ast.Mult, '^': ast.BitXor, '&': ast.BitAnd, '|': ast.BitOr, '>>': ast.RShift, '<<': ast.LShift,
         '-': ast.Sub, '%': ast.Mod}
@@ -37,9 +37,8 @@ def run(ctx, report):
         'pop() yields the last) identifies which local holds the LEFT (earlier) and RIGHT (later) operand; every branch `op == S` must '
         'apply the Python operator that S names, and for non-commutative S as LEFT.arg OP RIGHT.arg. D2: every operator for which the '
         '"trailing literal 0 is dropped" rule can fire has 0 as a right-neutral element and, when a single operand remains, is unwrapped to '
-        'that operand (operator-set inclusion between the two guards, located by meaning).')
-    report.not_decided = ('soundness of the side condition of each rewrite for all constants and widths (e.g. 2**shift >= mask), width preservation '
-                          'through merge_sliceto_slice, termination of the fixpoint loop `while e_new != e` -- these quantify over values.')
+        'that operand (operator-set inclusion between the two guards, located by meaning). D3: in merge_sliceto_slice the bit-position arithmetic is checked as linear forms: constant pieces are masked to stop - start bits, pieces merge only when adjacent (low.stop == start), the accumulated high constant is shifted by exactly the width of the lower piece (under the loop invariant start == out.start and the adjacency equality), slices of one source merge only when their source bits are contiguous.')
+    report.not_decided = ('soundness of the side condition of each rewrite for all constants and widths (e.g. 2**shift >= mask), termination of the fixpoint loop `while e_new != e` -- these quantify over values.')
 
     R1 = report.rule('C05.D1', 'constant folding applies the named operator with operands in expression order', floor=7)
     pops = []
@@ -147,8 +146,97 @@ def run(ctx, report):
         R2.ok('unwrap', sample='unwrap list %s has no unary operator' % sorted(unwrap_ops))
     report.analysed['fold_branches'] = n_branches
 
+    # ---------------------------------------------------------------- D3 bit positions in merge_sliceto_slice
+    R3 = report.rule('C05.D3', 'merging adjacent pieces of a Compose keeps every piece at its bit position', floor=7)
+    from ..linarith import lin, lin_add, show
+    ms = hlp.funcs.get('merge_sliceto_slice')
+    if ms is None:
+        raise AnalysisError('expression_helper.merge_sliceto_slice not found')
+    LOW = 'sorted_s[-1][1]'
+
+    def atoms(e):
+        """linear form with the lower neighbour sorted_s[-1][1] written as low"""
+        t = u(e).replace(LOW, 'low')
+        return lin(ast.parse(t, mode='eval').body)
+    # masking of constant pieces to their width
+    masks = [n for n in ast.walk(ms) if isinstance(n, ast.BinOp) and isinstance(n.op, ast.BitAnd) and isinstance(n.right, ast.BinOp) and isinstance(n.right.op, ast.Sub)
+             and isinstance(n.right.left, ast.BinOp) and isinstance(n.right.left.op, ast.LShift)]
+    if not masks:
+        R3.violation('const-mask', 'merge:const-mask:none', 'constant pieces are no longer masked to their width before merging', where(hlp, ms))
+    for n in masks:
+        width = lin(n.right.left.right)
+        if width == {'x[2]': 1, 'x[1]': -1} and u(n.right.left.left) == '1' and u(n.right.right) == '1':
+            R3.ok('const-mask', sample='constant piece masked with (1 << (stop - start)) - 1')
+        else:
+            R3.violation('const-mask', 'merge:const-mask:%s' % show(width), 'a constant piece is masked to %s bits instead of stop - start' % show(width), where(hlp, n))
+    inner = [n for n in ast.walk(ms) if isinstance(n, ast.While) and u(n.test) == 'sorted_s' and not any(isinstance(x, ast.While) for s2 in n.body for x in ast.walk(s2))]
+    if len(inner) != 2:
+        raise AnalysisError('merge_sliceto_slice: expected the two inner merge loops, found %d' % len(inner))
+    for k, loop in enumerate(inner):
+        which = 'constants' if any('uint64' in u(s2) for s2 in loop.body) else 'slices'
+        # invariant start == out[1] is established before the loop: start, v = pop(); out = [.., v[1], v[2]] with entries (x[1], x)
+        guards = [g for g in loop.body if isinstance(g, ast.If) and len(g.body) == 1 and isinstance(g.body[0], ast.Break)]
+        gtxt = [u(g.test) for g in guards]
+        inst = 'merge[%s]' % which
+        if '%s[2] != start' % LOW in gtxt:
+            R3.ok(inst + ':adjacent', sample='%s pieces merge only when low.stop == start' % which)
+        else:
+            R3.violation(inst + ':adjacent', 'merge:%s:adjacency' % which, 'the %s merge loop no longer requires the lower piece to end where the current one starts (guards: %s)'
+                         % (which, gtxt), where(hlp, loop))
+        env = {'start': {'out[1]': 1}}            # loop invariant
+        eq_low2 = {'out[1]': 1}                   # after the guard: low[2] == start == out[1]
+        seen_shift = seen_restore = False
+        for st in loop.body:
+            if isinstance(st, ast.Assign) and u(st.targets[0]) == 'start':
+                env['start'] = atoms(st.value)
+                if env['start'] != {'low[1]': 1}:
+                    R3.violation(inst + ':start', 'merge:%s:start:%s' % (which, u(st.value)), 'after merging, the piece must start at the lower piece\'s start; found start = %s' % u(st.value),
+                                 where(hlp, st))
+                else:
+                    R3.ok(inst + ':start', sample='start = low.start')
+            for n in ast.walk(st):
+                if which == 'constants' and isinstance(n, ast.BinOp) and isinstance(n.op, ast.LShift) and 'out[0].arg' in u(n.left):
+                    seen_shift = True
+                    amt = atoms(n.right)
+                    # substitute start and the adjacency equality low[2] == out[1]
+                    if 'start' in amt:
+                        c = amt.pop('start')
+                        amt = lin_add(amt, env['start'], c)
+                    if 'out[1]' in amt:
+                        c = amt.pop('out[1]')
+                        amt = lin_add(amt, {'low[2]': 1}, c)
+                    want = {'low[2]': 1, 'low[1]': -1}
+                    par = parent(n)
+                    while par is not None and not isinstance(par, ast.BinOp):
+                        par = parent(par)
+                    addend_ok = par is not None and isinstance(par.op, (ast.Add, ast.BitOr)) and '%s[0].arg' % LOW in u(par.right if par.left is n or n in list(ast.walk(par.left)) else par.left)
+                    if amt == want and addend_ok:
+                        R3.ok(inst + ':shift', sample='high part shifted by the width of the lower piece (low.stop - low.start), lower constant added')
+                    elif amt != want:
+                        R3.violation(inst + ':shift', 'merge:constants:shift:%s' % u(n.right), 'the accumulated high constant is shifted by %s (= %s), not by the width of the lower piece low.stop - low.start'
+                                     % (u(n.right), show(amt)), where(hlp, n), witness='Compose(0x11@0:8, 0x22@8:16, 0x33@16:24) folds to a different constant')
+                    else:
+                        R3.violation(inst + ':shift', 'merge:constants:addend', 'the lower constant is no longer added below the shifted high part', where(hlp, n))
+            if isinstance(st, ast.Assign) and u(st.targets[0]) == 'out[1]':
+                seen_restore = u(st.value) == 'start'
+            if which == 'slices' and isinstance(st, ast.Assign) and u(st.targets[0]) == 'out[0].start':
+                if u(st.value) == '%s[0].start' % LOW and '%s[0].stop != out[0].start' % LOW in gtxt:
+                    R3.ok(inst + ':source-bits', sample='slices of one source merge only when low.slice.stop == cur.slice.start; merged slice starts at low.slice.start')
+                else:
+                    R3.violation(inst + ':source-bits', 'merge:slices:source-bits', 'merged slice start is %s under guards %s: source bits are no longer contiguous' % (u(st.value), gtxt), where(hlp, st))
+        if which == 'constants':
+            if not seen_shift:
+                R3.violation(inst + ':shift', 'merge:constants:shift:none', 'constant merge no longer shifts the high part', where(hlp, loop))
+            if seen_restore:
+                R3.ok(inst + ':invariant', sample='out[1] = start restores the invariant start == out.start')
+            else:
+                R3.violation(inst + ':invariant', 'merge:constants:invariant', 'the merged constant piece does not record its new start (out[1] = start)', where(hlp, loop))
+
 
 MUTANTS = [
+    ('merge-shift-own-width', 'miasmx/expression/expression_helper.py', '(int(out[0].arg) << (out[1] - start ))', '(int(out[0].arg) << (out[2] - out[1]))', 'C05.D3'),
+    ('merge-no-adjacency', 'miasmx/expression/expression_helper.py', '                if sorted_s[-1][1][0].stop != out[0].start:\n                    break\n', '', 'C05.D3'),
+    ('merge-mask-width', 'miasmx/expression/expression_helper.py', 'v = x[0].arg & ((1<<(x[2]-x[1]))-1)', 'v = x[0].arg & ((1<<(x[2]))-1)', 'C05.D3'),
     ('fold-swap', 'miasmx/expression/expression_helper.py', "o = i1.arg >> i2.arg", "o = i2.arg >> i1.arg", 'C05.D1'),
     ('fold-lshift-swap', 'miasmx/expression/expression_helper.py', "o = i1.arg << i2.arg", "o = i2.arg << i1.arg", 'C05.D1'),
     ('fold-xor-or', 'miasmx/expression/expression_helper.py', "o = i1.arg ^ i2.arg", "o = i1.arg | i2.arg", 'C05.D1'),
